@@ -205,6 +205,16 @@ def _abort_point(hist):
     return None
 
 
+def inject_cleanup_fault(world, key, act_index, kind="Exception"):
+    w = dict(world)
+    script = dict(world["script"])
+    ent = copy.deepcopy(script[key])
+    ent["acts"][act_index]["raises"] = kind
+    script[key] = ent
+    w["script"] = script
+    return w
+
+
 def c12_eval_world(world, root, stats, only=None):
     """only: list of injections [[key, kind], ...] (replay) or None (enumerate)."""
     out = []
@@ -360,7 +370,48 @@ NONTRIVIAL = ("distinct = distinct run signatures (hash of the sequence of event
               "return code and selection/stop/dry-run/capture flags); non-trivial = a signature of a run in which "
               "at least one callback raised, or some element ended skipped/untested/undefined")
 
-_e, _r = make_runsim("C01", [O.check_C01], prof_C01, c01_probe, child_every=211)
+_e01, _r = make_runsim("C01", [O.check_C01], prof_C01, c01_probe, child_every=211)
+
+
+def c01_evaluate(seed, hashseed, root, stats):
+    """Sampled worlds + (every 8th seed) enumeration of 'any single raising hook or cleanup':
+    every hook invocation / registered cleanup of an otherwise unchanged run raises once."""
+    out, dig = _e01(seed, hashseed, root, stats)
+    if seed % 8 != 0:
+        return out, dig
+    world = W.gen_world(seed, profile=prof_C01)
+    world["hashseed"] = hashseed
+    if world["cfg"].get("dry_run") or not world["hooks"]:
+        return out, dig
+    vs0, h0, p0 = run_and_judge("C01", world, root, stats, [O.check_C01])
+    if h0.get("escaped") or h0.get("config_error"):
+        return out, dig
+    rng = random.Random(seed ^ 0xC01)
+    points = [e for e in h0["events"] if e["kind"] == "hook" and e["depth"] == 0 and not e.get("raised")]
+    if len(points) > 12:
+        points = rng.sample(points, 12)
+    for e in points:
+        wk = inject(world, e["key"], rng.choice(["exc", "assert"]))
+        vsk, hk, pk = run_and_judge("C01", wk, root, stats, [O.check_C01])
+        stats.probe("enumerated-single-hook-faults")
+        dig += R.history_digest(hk)
+        out = list(out) + [(wk, v, None) for v in vsk if v["prop"] == "C01"]
+    sites = []
+    for cid, info in sorted(h0["cleanups"].items()):
+        if info.get("registered") and info.get("site") and info["site"][0] in world["script"] \
+                and info["kind"] in ("plain", "args", "layer", "fixture") and not info.get("raises") \
+                and not info.get("setup_raises") and info["site"] not in sites:
+            sites.append(info["site"])
+    for key, ai in sites[:8]:
+        wk = inject_cleanup_fault(world, key, ai)
+        vsk, hk, pk = run_and_judge("C01", wk, root, stats, [O.check_C01])
+        stats.probe("enumerated-single-cleanup-faults")
+        dig += R.history_digest(hk)
+        out = list(out) + [(wk, v, None) for v in vsk if v["prop"] == "C01"]
+    return out, hashlib.sha1(dig.encode("ascii")).hexdigest()
+
+
+_e = c01_evaluate
 _reg("C01", _e, _r, "exploration",
      "worlds (feature trees x step outcomes x hooks x cleanups x tag/name/location selection x --stop/--dry-run/--wip) "
      "generated from the seed; verdict compared with the model's reading of the REALISED events; " + NONTRIVIAL,
@@ -403,8 +454,54 @@ from . import contextsim as CS     # noqa: E402
 _e13, _r13 = make_runsim("C13", [O.check_C13], prof_C13, c13_probe)
 
 
+def c13_enumerate_cleanup_faults(world, root, stats):
+    """Every cleanup registered in the fault-free run raises, one at a time (plus one pair)."""
+    out = []
+    w0 = dict(world)
+    sc = {}
+    for k, ent in world["script"].items():
+        if any(a.get("raises") for a in ent["acts"] if a["a"] == "cleanup"):
+            ent = copy.deepcopy(ent)
+            for a in ent["acts"]:
+                a.pop("raises", None)
+        sc[k] = ent
+    w0["script"] = sc
+    vs0, h0, p0 = run_and_judge("C13", w0, root, stats, [O.check_C13])
+    out += [(w0, v, None) for v in vs0 if v["prop"] == "C13"]
+    sites = []
+    for cid, info in sorted(h0["cleanups"].items()):
+        if info.get("registered") and not info.get("no_cleanup") and not info.get("setup_raises") \
+                and info.get("site") and info["site"][0] in w0["script"] and info["kind"] in ("plain", "args", "layer", "fixture"):
+            if info["site"] not in sites:
+                sites.append(info["site"])
+    if len(sites) > 14:
+        sites = random.Random(world["seed"]).sample(sites, 14)
+    plans = [[s_] for s_ in sites]
+    if len(sites) >= 2:
+        plans.append(sites[:2])
+    dig = R.history_digest(h0)
+    for plan in plans:
+        wk = w0
+        for key, ai in plan:
+            wk = inject_cleanup_fault(wk, key, ai, "AssertionError" if (ai + len(key)) % 3 == 0 else "Exception")
+        vsk, hk, pk = run_and_judge("C13", wk, root, stats, [O.check_C13])
+        dig += R.history_digest(hk)
+        fired = sum(1 for e in hk["events"] if e["kind"] == "cleanup" and e.get("raised"))
+        if stats is not None:
+            stats.probe("enumerated-cleanup-faults", 1)
+            stats.probe("enumerated-cleanup-faults-fired", 1 if fired else 0)
+        out += [(wk, v, None) for v in vsk if v["prop"] == "C13"]
+    return out, dig
+
+
 def c13_evaluate(seed, hashseed, root, stats):
     out, d1 = _e13(seed, hashseed, root, stats)
+    if seed % 4 == 0:
+        world = W.gen_world(seed, profile=prof_C13)
+        world["hashseed"] = hashseed
+        o3, d3 = c13_enumerate_cleanup_faults(world, root, stats)
+        out = list(out) + o3
+        d1 = d1 + d3
     out2, d2 = CS.evaluate(seed, hashseed, root, stats)
     stats.probe("context-machine-histories")
     return list(out) + list(out2), hashlib.sha1((d1 + d2).encode("ascii")).hexdigest()
